@@ -33,6 +33,15 @@ for order in (1, 2, 3, 4):
             "dtypes": sorted({str(v.dtype) for v in leaves.values()}),
             "maxabs": float(max(np.max(np.abs(v)) for v in leaves.values())),
         }
+# coefficient VALUES near the contour radius (|z| = r is where a badly placed contour node would hit the removable
+# singularity), at z = 0 and for tiny z: compared between the two sessions by the parent
+zs2 = np.array([0.0, -1e-8, -1e-4, -0.5, -0.9, -0.97, -0.99, -0.999, -1.0, -1.001, -1.01, -1.03, -1.1, -2.0, -5.0])
+out["sweep"] = {"z": zs2.tolist()}
+for order in (1, 2, 3, 4):
+    cls = getattr(etdrk, f"ETDRK{order}")
+    integ = cls(1.0, jnp.asarray(zs2, dtype=want_c)[None, :], lambda v: 0 * v)
+    names_c = sorted(k for k in dir(integ) if k.startswith("_coef_"))
+    out["sweep"][f"order{order}"] = {k: [[float(np.real(x)), float(np.imag(x))] for x in np.asarray(getattr(integ, k)).ravel()] for k in names_c}
 R = S.registry()
 for i, name in enumerate(names):
     rng = np.random.default_rng(seed + i)
